@@ -522,11 +522,32 @@ func writeReplay(p *Prog, verif, replayDir, prop string, n *NameResult, why stri
 		if n.Failing.Res.Status == "sat" && o.Unit.fc != nil && o.Unit.fc.Replay != "" {
 			model := parseValues(o, n.Failing.Res.Output)
 			// guided search for a realistic model first
-			if gm, ok := guidedModel(o, scratch); ok {
-				rec["model_unguided"] = model
-				model = gm
-				rec["guided"] = true
+			var gst []string
+			nguides := 0
+			for _, c := range o.Unit.fc.Clauses {
+				if c.Kind == "guide" {
+					nguides++
+				}
 			}
+			budget := time.Now().Add(150 * time.Second)
+		search:
+			for gi := 0; gi < nguides; gi++ {
+				for i, f := range n.Fails {
+					if i >= 16 || time.Now().After(budget) {
+						break
+					}
+					gm, st := guidedModel(f.O, scratch, gi)
+					gst = append(gst, st)
+					if gm != nil {
+						rec["model_unguided"] = model
+						model = gm
+						o = f.O
+						rec["position"] = fmt.Sprintf("%s:%d", o.Pos.Filename, o.Pos.Line)
+						break search
+					}
+				}
+			}
+			rec["guided_search"] = gst
 			rec["model"] = model
 			src, out, ok, err := runReplay(p, verif, o.Unit.fc.Replay, model, scratch)
 			rec["replay_adapter"] = o.Unit.fc.Replay
@@ -551,36 +572,41 @@ func writeReplay(p *Prog, verif, replayDir, prop string, n *NameResult, why stri
 
 // guidedModel re-solves the failing query with the `guide` clauses of the contract (inputs restricted to
 // fragments where the library templates are exact) so that the model is realistic.
-func guidedModel(o *Oblig, scratch string) (map[string]string, bool) {
+func guidedModel(o *Oblig, scratch string, which int) (map[string]string, string) {
 	u := o.Unit
 	if u.fc == nil {
-		return nil, false
+		return nil, "no contract"
 	}
 	var extra []string
+	gi := -1
 	for _, c := range u.fc.Clauses {
 		if c.Kind != "guide" {
+			continue
+		}
+		gi++
+		if gi != which {
 			continue
 		}
 		env := u.bodyEnv(u.entry, u.fn)
 		env.paramsEntry = true
 		g, err := env.formula(c.Expr)
 		if err != nil {
-			return nil, false
+			return nil, "guide clause: " + err.Error()
 		}
 		extra = append(extra, g)
 	}
 	if len(extra) == 0 {
-		return nil, false
+		return nil, "no guide clause"
 	}
 	guideMode = true
 	q := o.query(extra, true)
 	guideMode = false
-	sv := &Solver{scratch: scratch, timeout: 20 * time.Second}
+	sv := &Solver{scratch: scratch, timeout: 8 * time.Second}
 	r := sv.solve(q, solverOrder(q))
 	if r.Status != "sat" {
-		return nil, false
+		return nil, fmt.Sprintf("guide%d: %s %v", which+1, r.Status, r.Tried)
 	}
-	return parseValues(o, r.Output), true
+	return parseValues(o, r.Output), "sat " + r.Solver
 }
 
 var guideMode = false
